@@ -82,6 +82,9 @@ func (mon) Plan(prop, tier string, seed int64) []drv.Shard {
 			add("rush", 0, false, "GOMAXPROCS=1")
 			add("rush", 0, false, "GOMAXPROCS=2")
 			add("rush", 0, false)
+			parts = 2
+			add("ctx", 0, false)
+			add("ctx", 0, false, "GOMAXPROCS=2")
 			parts = p
 		}
 		if thorough {
@@ -322,6 +325,56 @@ func holScenarios(seed int64) []Scenario {
 	return out
 }
 
+// ctxScenarios (C06/C07): what kind of context the lane is given and who pushes how soon after its
+// end. The lane is handed (a) a context type that is not the standard library's, (b) a standard
+// context with hundreds of other children; the cancel (or deadline) lands with the lane idle, loaded
+// or right after New; pushes follow from the cancelling goroutine itself (the instant cancel()
+// returned) and from goroutines woken by <-ctx.Done().
+func ctxScenarios(seed int64) []Scenario {
+	var out []Scenario
+	for rep := 0; rep < 6; rep++ {
+		for _, cfg := range [][2]int{{1, 0}, {1, 2}, {2, 1}, {3, 0}, {4, 2}} {
+			ls, qs := cfg[0], cfg[1]
+			for _, kind := range []string{"own", ""} {
+				sib := 0
+				if kind == "" {
+					sib = []int{300, 40, 1000}[rep%3]
+				}
+				var pushes []PushSpec
+				for i := 0; i < rep%3; i++ {
+					pushes = append(pushes, PushSpec{Lane: i % ls, Task: TaskSpec{Kind: kinds[(i+rep)%3]}})
+				}
+				base := Scenario{LaneSize: ls, QueueSize: qs, TimeoutMs: 3600000, Producers: [][]PushSpec{pushes}, PostPush: 1, CtxKind: kind, Siblings: sib, Observers: 2 * ls, SyncPost: 2 * ls, Waiters: 1 + rep%2}
+				// idle or lightly used lane, cancel from outside
+				s := base
+				s.Cancel = CancelPlan{Kind: "none"}
+				out = append(out, s)
+				// the same right after New
+				s.Rush = true
+				out = append(out, s)
+				// deadline
+				s = base
+				s.Cancel = CancelPlan{Kind: "deadline", DeadlineMs: 1 + rep}
+				out = append(out, s)
+				// loaded: all workers pinned, external cancel
+				s = base
+				s.Pins = seq(ls)
+				s.Cancel = CancelPlan{Kind: "external"}
+				out = append(out, s)
+				// cancelled from inside the protocol
+				s = base
+				s.Producers = [][]PushSpec{append(append([]PushSpec(nil), pushes...), PushSpec{Lane: 0, Task: TaskSpec{Kind: "instant"}}, PushSpec{Lane: ls - 1, Task: TaskSpec{Kind: "yield"}})}
+				s.Cancel = CancelPlan{Kind: "hook", Point: points[(rep*5+ls+qs)%len(points)], Hit: 1}
+				out = append(out, s)
+			}
+		}
+	}
+	for i := range out {
+		out[i].Seed = seed + int64(i)
+	}
+	return out
+}
+
 // rushScenarios (C06/C07): New, pushes, cancel and Wait with no settling in between, so that
 // Wait can be reached before the lane's goroutines have run for the first time.
 func rushScenarios(seed int64) []Scenario {
@@ -465,6 +518,9 @@ func shapeKey(s Scenario) string {
 	if s.TimeoutUs != 0 {
 		extra += fmt.Sprintf(" tus%d", s.TimeoutUs)
 	}
+	if s.CtxKind != "" || s.Siblings > 0 || s.Observers > 0 || s.SyncPost > 0 {
+		extra += fmt.Sprintf(" ctx=%s/sib%d/obs%d/sync%d", s.CtxKind, s.Siblings, s.Observers, s.SyncPost)
+	}
 	return fmt.Sprintf("L%dQ%d t%d pins%d prod%d n%d %v cancel=%s/%s#%d post%d%s", s.LaneSize, s.QueueSize, s.TimeoutMs, len(s.Pins), len(s.Producers), n, k, s.Cancel.Kind, s.Cancel.Point, s.Cancel.Hit, s.PostPush, extra)
 }
 
@@ -479,6 +535,8 @@ func (mn mon) Run(sh drv.Shard, c *drv.Ctx) {
 		list = holScenarios(sh.Seed)
 	case "rush":
 		list = rushScenarios(sh.Seed)
+	case "ctx":
+		list = ctxScenarios(sh.Seed)
 	case "status":
 		list = statusScenarios(sh.Seed)
 	case "rand":
